@@ -87,6 +87,7 @@ Definition hflush (h : hist) : hist := {| items := mark_saved (items h); next_id
 Inductive op :=
 | Add (sid : nat) (c : str) (now : Z)
 | Save (sid : nat)
+| SaveFail (sid : nat)   (* a save whose write fails (full disk): nothing is written *)
 | NewSession
 | Delete (sid : nat) (off : Z)
 | Clear (sid : nat)
@@ -114,6 +115,7 @@ Definition step (w : world) (o : op) : world :=
                      sessions := update_nth sid hflush (sessions w); tsflag := tsflag w |}
       | None => w
       end
+  | SaveFail _ => w   (* [flush] returns the error before any item is marked saved *)
   | NewSession =>
       {| file := file w; sessions := sessions w ++ [import (file w)]; tsflag := tsflag w |}
   | Delete sid off =>
